@@ -39,6 +39,18 @@
 (* (refresh() at the top of Exists / Get / GetRecursive / Put);               *)
 (* ExistsRefreshes = TRUE is the tree as it is (with FALSE TLC shows the      *)
 (* stale resolution as a counterexample).                                    *)
+(*                                                                         *)
+(* BACKEND FAULTS: an existence check of a request may FAIL (file backend:   *)
+(* the file is momentarily unparseable, so every check of that request       *)
+(* fails; Consul backend: the KV GET of the i-th candidate is answered with   *)
+(* HTTP 500).  Resolve(k, F) / GetX(k, F): F = the positions (1..4, in the    *)
+(* documented order) whose check cannot be answered.  serviceutil.go:         *)
+(* queryToAbsPath ignores the error of src.Exists and reads "does not exist", *)
+(* so the code-level resolution skips such a candidate.  PROPERTY: a          *)
+(* resolution during which a check could not be answered either FAILS or      *)
+(* names an entry that EXISTS - never a path whose existence it could not      *)
+(* establish (FaultNeverInventsEntry); the most-specific clause is claimed     *)
+(* for undisturbed requests only.                                            *)
 (***************************************************************************)
 EXTENDS ConfigQuery
 
@@ -46,18 +58,21 @@ CONSTANTS MaxSteps,            \* requests per behaviour
           VarIds, UpdIds,      \* which members of the catalogues VarCat / UpdCat are used
           RequireInvalidate,   \* Process is only asked for when no update is pending invalidation
           ExistsRefreshes,     \* YamlSource.Exists re-reads the file before looking (TRUE: the tree as it is)
-          StoreInit, EditVals  \* initial values of the candidate entries ({0, 1}: the 16 patterns); values an external edit writes
+          StoreInit, EditVals, \* initial values of the candidate entries ({0, 1}: the 16 patterns); values an external edit writes
+          Backends,            \* {"file", "consul"}: which backing stores a service may sit on
+          FaultSets            \* the fault patterns F tried on the Consul backend (subsets of 1..4); {{}} = no faults
 
 VARIABLES content,   \* [Entries -> parts]                                   (property level)
           compiled,  \* [Entries -> snapshot | NoSnap]: the template cache   (code level)
           dirty,     \* an entry was updated since the cache was last dropped
+          backend,   \* "file" | "consul": fixed for the life of the service
           store,     \* [Keys -> 0 absent | 1 | 2 payload version]: the candidate entries c/RT/role/x NOW   (property level)
           tree,      \* the same, as last read by the backend (YamlSource.data)                              (code level)
           req,       \* the last request
           out,       \* what the code-level service answered: [ok, out]
           n
 
-svars == <<content, compiled, dirty, store, tree, req, out, n>>
+svars == <<content, compiled, dirty, backend, store, tree, req, out, n>>
 
 (* two base paths; D2f is asked for but never exists *)
 Entries == {"D1e", "D1f", "D1s", "D2e", "D2s"}
@@ -102,11 +117,12 @@ UpdCat == << <<P("lit", "J")>>,
 UpdEntries == {"D1e", "D1s", "D2e"}
 
 NoSnap == [none |-> TRUE]
-NoReq == [op |-> "none", e |-> "", vars |-> <<>>, parts |-> <<>>]
+NoReq == [op |-> "none", e |-> "", vars |-> <<>>, parts |-> <<>>, f |-> {}]
 Nothing == Rendered("")
 
 Init == /\ content = InitContent
         /\ compiled = [e \in Entries |-> NoSnap]
+        /\ backend \in Backends
         /\ store \in [Keys -> StoreInit] /\ tree = store           \* NewService reads the file: any of the 16 patterns
         /\ dirty = FALSE /\ req = NoReq /\ out = Nothing /\ n = 0
 
@@ -114,7 +130,7 @@ Fresh(c, e) == [parts |-> c[e], sib |-> c[SibOf(e)]]      \* compiling e now: it
 
 Process(e, vs) ==
   /\ n < MaxSteps /\ (RequireInvalidate => ~dirty)
-  /\ req' = [op |-> "Process", e |-> e, vars |-> vs, parts |-> <<>>]
+  /\ req' = [op |-> "Process", e |-> e, vars |-> vs, parts |-> <<>>, f |-> {}]
   /\ IF e \notin Entries
        THEN /\ out' = RenderError /\ UNCHANGED compiled              \* FromCache fails: nothing is cached
             /\ tree' = IF ExistsRefreshes THEN store ELSE tree        \* the loader asked Exists only
@@ -122,57 +138,73 @@ Process(e, vs) ==
             IN /\ out' = RenderWith(snap.parts, snap.sib, TRUE, vs, AutoEscape)      \* bindings built from THIS request's vs
                /\ compiled' = [compiled EXCEPT ![e] = snap]
                /\ tree' = IF compiled[e] # NoSnap THEN tree ELSE store               \* a cache hit does not touch the backend
-  /\ n' = n + 1 /\ UNCHANGED <<content, dirty, store>>
+  /\ n' = n + 1 /\ UNCHANGED <<content, dirty, store, backend>>
 
 Raw(e) ==
   /\ n < MaxSteps
-  /\ req' = [op |-> "Raw", e |-> e, vars |-> <<>>, parts |-> <<>>]
+  /\ req' = [op |-> "Raw", e |-> e, vars |-> <<>>, parts |-> <<>>, f |-> {}]
   /\ out' = IF e \in Entries THEN Rendered(Source(content[e])) ELSE RenderError      \* src.Get: never cached
   /\ tree' = IF e \in Entries \/ ExistsRefreshes THEN store ELSE tree               \* Exists, then Get (which re-reads)
-  /\ n' = n + 1 /\ UNCHANGED <<content, compiled, dirty, store>>
+  /\ n' = n + 1 /\ UNCHANGED <<content, compiled, dirty, store, backend>>
 
 Invalidate ==
   /\ n < MaxSteps
-  /\ req' = [op |-> "Invalidate", e |-> "", vars |-> <<>>, parts |-> <<>>]
+  /\ req' = [op |-> "Invalidate", e |-> "", vars |-> <<>>, parts |-> <<>>, f |-> {}]
   /\ compiled' = [e \in Entries |-> NoSnap] /\ dirty' = FALSE /\ out' = Nothing
-  /\ n' = n + 1 /\ UNCHANGED <<content, store, tree>>
+  /\ n' = n + 1 /\ UNCHANGED <<content, store, tree, backend>>
 
 Update(e, parts) ==
   /\ n < MaxSteps /\ e \in UpdEntries /\ content[e] # parts
-  /\ req' = [op |-> "Update", e |-> e, vars |-> <<>>, parts |-> parts]
+  /\ req' = [op |-> "Update", e |-> e, vars |-> <<>>, parts |-> parts, f |-> {}]
   /\ content' = [content EXCEPT ![e] = parts] /\ dirty' = TRUE /\ out' = Nothing     \* src.Put only: the cache is kept
   /\ tree' = store                                                                  \* Put re-reads, writes, flushes
-  /\ n' = n + 1 /\ UNCHANGED <<compiled, store>>
+  /\ n' = n + 1 /\ UNCHANGED <<compiled, store, backend>>
 
 (* ---- the store changing under the service ---- *)
 ExternalEdit(k, v) ==          \* somebody else writes the backing store; the service is not told
   /\ n < MaxSteps /\ store[k] # v
-  /\ req' = [op |-> "ExternalEdit", e |-> k, vars |-> <<>>, parts |-> <<>>]
+  /\ req' = [op |-> "ExternalEdit", e |-> k, vars |-> <<>>, parts |-> <<>>, f |-> {}]
   /\ store' = [store EXCEPT ![k] = v] /\ out' = Nothing
-  /\ n' = n + 1 /\ UNCHANGED <<content, compiled, dirty, tree>>
+  /\ n' = n + 1 /\ UNCHANGED <<content, compiled, dirty, tree, backend>>
 
-Seen == IF ExistsRefreshes THEN store ELSE tree       \* what Exists looks at
+Seen == IF ExistsRefreshes \/ backend = "consul" THEN store ELSE tree       \* what Exists looks at (Consul: always a KV read)
 
-Resolve(k) ==                  \* serviceutil.go:resolveComponentQuery: up to four Exists, nothing else
-  /\ n < MaxSteps
-  /\ req' = [op |-> "Resolve", e |-> k, vars |-> <<>>, parts |-> <<>>]
-  /\ out' = Resolution(CodeResolve(XQ(k), Existing(Seen)))
-  /\ tree' = Seen
-  /\ n' = n + 1 /\ UNCHANGED <<content, compiled, dirty, store>>
+\* fault patterns: the broken file fails every check of the request; a scripted Consul fails chosen ones
+AllFour == {1, 2, 3, 4}        \* (written out: TLC would print 1..4 as an interval)
+Faults == IF backend = "file" THEN {{}, AllFour} ELSE FaultSets
 
-GetX(k) ==                     \* GetComponentConfiguration: queryToAbsPath (Exists), then src.Get (re-reads)
-  /\ n < MaxSteps
-  /\ req' = [op |-> "GetX", e |-> k, vars |-> <<>>, parts |-> <<>>]
-  /\ out' = IF Seen[k] # 0 /\ store[k] # 0 THEN Rendered(PayloadX(k, store[k])) ELSE RenderError
-  /\ tree' = IF Seen[k] # 0 THEN store ELSE Seen
-  /\ n' = n + 1 /\ UNCHANGED <<content, compiled, dirty, store>>
+\* serviceutil.go:resolveComponentQuery with queryToAbsPath's `exists, _ := s.src.Exists(path)`: an unanswered check reads "absent"
+CodeResolveF(q, B, F) ==
+  LET r1 == q
+      r2 == WithFallbackRunType(q)
+      r3 == WithFallbackRoleName(q)
+      r4 == WithFallbackRunType(r3)
+  IN IF 1 \notin F /\ ExistsIn(B, r1) THEN r1
+     ELSE IF 2 \notin F /\ ExistsIn(B, r2) THEN r2
+     ELSE IF 3 \notin F /\ ExistsIn(B, r3) THEN r3
+     ELSE IF 4 \notin F /\ ExistsIn(B, r4) THEN r4
+     ELSE NotFound
+
+Resolve(k, F) ==               \* up to four Exists, nothing else
+  /\ n < MaxSteps /\ F \in Faults
+  /\ req' = [op |-> "Resolve", e |-> k, vars |-> <<>>, parts |-> <<>>, f |-> F]
+  /\ out' = Resolution(CodeResolveF(XQ(k), Existing(Seen), F))
+  /\ tree' = IF F = {} THEN Seen ELSE tree
+  /\ n' = n + 1 /\ UNCHANGED <<content, compiled, dirty, store, backend>>
+
+GetX(k, F) ==                  \* GetComponentConfiguration: queryToAbsPath (Exists), then src.Get (re-reads)
+  /\ n < MaxSteps /\ F \in Faults
+  /\ req' = [op |-> "GetX", e |-> k, vars |-> <<>>, parts |-> <<>>, f |-> F]
+  /\ out' = IF 1 \notin F /\ Seen[k] # 0 /\ store[k] # 0 THEN Rendered(PayloadX(k, store[k])) ELSE RenderError
+  /\ tree' = IF 1 \notin F /\ Seen[k] # 0 THEN store ELSE IF F = {} THEN Seen ELSE tree
+  /\ n' = n + 1 /\ UNCHANGED <<content, compiled, dirty, store, backend>>
 
 Next == \/ \E e \in Askable, i \in VarIds : Process(e, VarCat[i])
         \/ \E e \in Askable : Raw(e)
         \/ Invalidate
         \/ \E e \in UpdEntries, i \in UpdIds : Update(e, UpdCat[i])
         \/ \E k \in Keys, v \in EditVals : ExternalEdit(k, v)
-        \/ \E k \in Keys : Resolve(k) \/ GetX(k)
+        \/ \E k \in Keys, F \in SUBSET (1..4) : Resolve(k, F) \/ GetX(k, F)
 
 Spec == Init /\ [][Next]_svars
 
@@ -184,18 +216,27 @@ Expected(c, st, r, esc) ==
     [] r.op = "GetX"    -> IF st[r.e] # 0 THEN Rendered(PayloadX(r.e, st[r.e])) ELSE RenderError
     [] OTHER            -> Nothing
 
-CacheTransparent == out = Expected(content, store, req, AutoEscape)   \* whatever was asked before, whatever is cached
-RequestExact     == out = Expected(content, store, req, FALSE)        \* ... and with the values verbatim (RenderExact over time)
+\* what a request may answer: undisturbed, exactly Expected; with unanswered existence checks, failure or the truth
+Acceptable(c, st, r, esc, o) ==
+  IF r.op = "Resolve" /\ r.f # {}
+    THEN o = RenderError \/ \E i \in 1..4 : LET q == Candidates(XQ(r.e))[i] IN Key(q) \in Existing(st) /\ o = Resolution(q)
+  ELSE IF r.op = "GetX" /\ r.f # {}
+    THEN o = RenderError \/ o = Expected(c, st, r, esc)
+  ELSE o = Expected(c, st, r, esc)
+
+CacheTransparent == Acceptable(content, store, req, AutoEscape, out)   \* whatever was asked before, whatever is cached
+RequestExact     == Acceptable(content, store, req, FALSE, out)        \* ... and with the values verbatim (RenderExact over time)
 
 \* the resolution clauses of the property, on the store as it is NOW
 Resolved == IF out.ok THEN [comp |-> "c", rt |-> RtOf(CHOOSE k \in Keys : PathStr(XQ(k)) = out.out),
                              role |-> RoleOf(CHOOSE k \in Keys : PathStr(XQ(k)) = out.out), entry |-> "x"]
             ELSE NotFound
 ResolvedExistsNow == req.op = "Resolve" => ResolvedExists(XQ(req.e), Existing(store), Resolved)
-MostSpecificNow   == req.op = "Resolve" => MostSpecific(XQ(req.e), Existing(store), Resolved)
-PayloadNow        == req.op = "GetX" => out = Expected(content, store, req, FALSE)
+MostSpecificNow   == req.op = "Resolve" /\ req.f = {} => MostSpecific(XQ(req.e), Existing(store), Resolved)
+FaultNeverInventsEntry == req.op = "Resolve" /\ req.f # {} => ResolvedExists(XQ(req.e), Existing(store), Resolved)
+PayloadNow        == req.op = "GetX" => Acceptable(content, store, req, FALSE, out)
 
 TypeOK == /\ n \in 0..MaxSteps /\ dirty \in BOOLEAN /\ out.ok \in BOOLEAN
-          /\ store \in [Keys -> 0..2] /\ tree \in [Keys -> 0..2]
+          /\ store \in [Keys -> 0..2] /\ tree \in [Keys -> 0..2] /\ backend \in {"file", "consul"}
           /\ \A e \in Entries : compiled[e] = NoSnap \/ compiled[e].parts \in Range(UpdCat) \cup Range(InitContent)
 =============================================================================
